@@ -85,6 +85,15 @@ UniqueOn(i, r) ==
           /\ AttrVals(Ents(i, r)[x], "spn")  \cap AttrVals(Ents(i, r)[y], "spn")  = {}
 UniqueLive(i) == \A r \in Reps(i) : UniqueOn(i, r)
 
+\* ------------------------------------------------------------------ C16 (replicated): no dangling member references
+\* every member / memberof / directmemberof value of a live entry that names a model entry names one that is live
+\* on the same replica (references to built-in groups are outside the projection)
+RefAttrs == {"member", "memberof", "directmemberof"}
+NoDanglingRef(i) ==
+  \A r \in Reps(i) : \A x \in DOMAIN Ents(i, r) :
+     Ents(i, r)[x].live = "live" =>
+        \A a \in RefAttrs : \A m \in (AttrVals(Ents(i, r)[x], a) \cap ModelIds) : LiveAt(i, r, m)
+
 \* ------------------------------------------------------------------ C08
 IsQuiescentMesh(i) == Rec[i].op = "mesh" /\ Rec[i].res.q
 ConvergedCore(i)    == \A r1, r2 \in Reps(i) : EntsCore(i, r1) = EntsCore(i, r2)
@@ -162,6 +171,7 @@ Judge == l <= Len(Rec) =>
   /\ (RefusalInert(l)       \/ PrintT(<<"L1FAIL", "C09", l, "refusal-changed-consumer">>))
   /\ (RangeDecision(l)      \/ PrintT(<<"L1FAIL", "C09", l, "range-decision">>))
   /\ (RevocationSticky(l)   \/ PrintT(<<"L1FAIL", "C11", l, "revocation-not-propagated">>))
+  /\ (NoDanglingRef(l)      \/ PrintT(<<"L1FAIL", "C16", l, "dangling-reference-after-replication">>))
   /\ (UniqueLive(l)         \/ PrintT(<<"L1FAIL", "C19", l, "duplicate">>))
   /\ ((Rec[l].op = "mesh" => Rec[l].res.q) \/ PrintT(<<"NOTQUIESCENT", l>>))
 
